@@ -5,7 +5,7 @@ g.<Rule>.parse; (b) M-trace PEG trace specification on the instrumented emitted
 source (model free)."""
 import time
 
-from .. import gast, gen, diff, tracer, corpus
+from .. import gast, gen, diff, tracer, corpus, work
 
 ID = 'C01'
 
@@ -34,59 +34,9 @@ def inconclusive(counters, evaluations, tier):
     return out
 
 
-def alphabet_for(x, bytes_mode):
-    has_i = any(n[0] in ('istr', 'bistr') or (n[0] in ('re', 'bre') and n[2]) for n in gast.walk(x))
-    return 'abA' if has_i and not bytes_mode else ('abB' if has_i else 'ab')
-
-
-_inputs_cache = {}
-
-
-def inputs_for(alpha, maxlen, bytes_mode):
-    key = (alpha, maxlen, bytes_mode)
-    if key not in _inputs_cache:
-        ins = list(gen.all_strings(alpha, maxlen))
-        if bytes_mode:
-            ins = [s.encode() for s in ins]
-        _inputs_cache[key] = ins
-    return _inputs_cache[key]
-
-
-def run_grammar(rec, G, inputs, tag, entries=(None,), trace=False, monitors=('value',)):
-    b = diff.build(rec, G, include_source=trace)
-    if b is None:
-        return
-    rec.count('descriptions')
-    tr = None
-    if trace:
-        tr = tracer.Traced(b.g)
-        if not tr.ok:
-            rec.count('trace_unavailable')
-            tr = None
-    desc = b.descs[-1]
-    for text in inputs:
-        for entry in entries:
-            r = diff.compare(rec, b, text, entry, monitor='E1', monitors=monitors,
-                             extra_case=dict(tag=str(tag)))
-            if r is None:
-                continue
-            exp, o, model = r
-            if model.undo:
-                rec.nontrivial((desc, text, entry))
-                rec.count('undo_events', model.undo)
-                rec.count('undo:%s' % (tag[0] if isinstance(tag, tuple) else tag))
-            if tr is not None:
-                viol = tr.run(text, entry, o.outcome)
-                rec.count('trace_events', tr.last_events)
-                if viol == 'mismatch':
-                    rec.count('trace_discarded')
-                elif viol:
-                    for v in viol[:3]:
-                        rec.violation('trace:%s' % v[0], 'M-trace PEG trace specification',
-                                      diff.case_dict(b, text, entry, 0, True, tag=str(tag), trace=True),
-                                      'trace rule %s' % v[0], v)
-    rec.sample(dict(description=desc, inputs=len(inputs), tag=str(tag)), limit=2)
-    b.cleanup()
+alphabet_for = work.alphabet_for
+inputs_for = work.inputs_for
+run_grammar = work.run_grammar
 
 
 def run_shard(rec):
@@ -154,18 +104,4 @@ def run_shard(rec):
 
 
 def replay(rec, rep):
-    case = rep['case']
-    if case.get('trace'):
-        b = diff.rebuild_from_case(rec, case, include_source=True)
-        if b is None:
-            return
-        import ast as _ast
-        text = _ast.literal_eval(case['text_repr'])
-        o = diff.observe.observe(b.g, text, case.get('entry'))
-        tr = tracer.Traced(b.g)
-        viol = tr.run(text, case.get('entry'), o.outcome)
-        if viol and viol != 'mismatch':
-            for v in viol[:3]:
-                rec.violation('trace:%s' % v[0], 'M-trace', case, 'trace rule', v)
-        return
-    diff.replay_diff(rec, case, monitors=('value',))
+    work.generic_replay(rec, rep, monitors=('value',))
